@@ -716,8 +716,27 @@ def build(ch: Choices, pool: Pool, kind: str) -> Built:
         return Built(codec, w.raw(), w.marks, obj)
     if kind == "dsa.Sig":
         q, msg, sig = pool.dsa_sig()
+        if ch.draw(3, "der.small") == 0:
+            # scalars at the widths DER cares about (one octet with and without the high bit, two octets ...): not a
+            # signature of anything, a value of the codec like any other
+            edge = [1, 0x7F, 0x80, 0xFF, 0x100, 0x7FFF, 0x8000, 0xFFFF, 1 << 247, (1 << 248) - 1, (1 << 255) - 1]
+            r_edge = [1, 0x7E, 0x81, 0xFF, 0x101, 0x7FFA, 0x8001, 0xFFFF]  # x-coordinates of secp256k1 on both sides of each width
+            sig = dsa.Sig(ch.pick([sig.r, *r_edge], "der.r"), ch.pick([sig.s, *edge], "der.s"), check_validity=False)
         w = w_dsa_sig(sig)
-        return Built(codec, w.raw(), w.marks, sig, extra={"q": q, "msg": msg})
+
+        def der(r_octets: bytes, s_octets: bytes) -> bytes:
+            body = b"\x02" + bytes([len(r_octets)]) + r_octets + b"\x02" + bytes([len(s_octets)]) + s_octets
+            return b"\x30" + bytes([len(body)]) + body
+
+        minimal = [v.to_bytes(v.bit_length() // 8 + 1, "big") for v in (sig.r, sig.s)]
+        bare = [v.to_bytes(max(1, (v.bit_length() + 7) // 8), "big") for v in (sig.r, sig.s)]
+        mutants = [
+            ("der-r-padded", der(b"\x00" + minimal[0], minimal[1])), ("der-s-padded", der(minimal[0], b"\x00" + minimal[1])),
+            ("der-both-padded", der(b"\x00" + minimal[0], b"\x00" + minimal[1])), ("der-r-padded-twice", der(b"\x00\x00" + minimal[0], minimal[1])),
+            ("der-r-unpadded", der(bare[0], minimal[1])), ("der-s-unpadded", der(minimal[0], bare[1])),  # negative when the high bit is set
+        ]
+        mutants = [(name, m) for name, m in mutants if m != w.raw() and len(m) < 0x80]
+        return Built(codec, w.raw(), w.marks, sig, extra={"q": q, "msg": msg, "mutants": mutants})
     if kind == "ssa.Sig":
         q, msg = pool.scalar(), blob(ch, ch.draw(48, "ssa.msglen"), "ssa.msg")
         sig = ssa.sign_(msg, q, ch.nbytes(32, "ssa.aux"))
